@@ -269,8 +269,26 @@ func c15ConstUses(info *types.Info, body ast.Node, defs c15ConstDefs) []c15Use {
 				return
 			}
 			walk(x.Fun)
-			for _, a := range x.Args {
-				operand(a, "other")
+			// math/bits full-width arithmetic: the operands keep their arithmetic roles
+			var roles []string
+			if fn := tables.StaticCallee(info, x); fn != nil {
+				switch {
+				case tables.IsPkgFunc(fn, "math/bits", "Mul64"), tables.IsPkgFunc(fn, "math/bits", "Mul"):
+					roles = []string{"mul", "mul"}
+				case tables.IsPkgFunc(fn, "math/bits", "Add64"), tables.IsPkgFunc(fn, "math/bits", "Add"):
+					roles = []string{"add", "add", "other"}
+				case tables.IsPkgFunc(fn, "math/bits", "Sub64"), tables.IsPkgFunc(fn, "math/bits", "Sub"):
+					roles = []string{"other", "sub", "other"}
+				case tables.IsPkgFunc(fn, "math/bits", "Div64"), tables.IsPkgFunc(fn, "math/bits", "Div"):
+					roles = []string{"other", "other", "div"}
+				}
+			}
+			for i, a := range x.Args {
+				role := "other"
+				if i < len(roles) {
+					role = roles[i]
+				}
+				operand(a, role)
 			}
 			return
 		case ast.Expr:
